@@ -313,24 +313,27 @@ def skel_call(call):
     return ("GSoon " if soon else "GCall ") + ctor
 
 
-def skel(stmts, ex):
-    """statement list -> (Gallina term : list gact, every path ends the enclosing body)"""
+def skel(stmts, ex, loop=False):
+    """statement list -> (Gallina term : list gact, every path ends the enclosing body); inside a loop body (loop=True) a
+    bare `return` is not a `continue`: it abandons the remaining iterations (GStop)"""
     if not stmts:
         return "[]", False
     st, rest = stmts[0], stmts[1:]
+    if isinstance(st, ast.Return) and st.value is None and loop:
+        return "(GStop :: [])", True
     if isinstance(st, ast.Continue) or (isinstance(st, ast.Return) and st.value is None):
         return "[]", True
     if isinstance(st, ast.Expr) and isinstance(st.value, ast.Constant):
-        return skel(rest, ex)
+        return skel(rest, ex, loop)
     if isinstance(st, ast.Expr) and isinstance(st.value, ast.Call):
         act = skel_call(st.value)
-        r, t = skel(rest, ex)
+        r, t = skel(rest, ex, loop)
         return (r if act is None else f"({act} :: {r})"), t
     if isinstance(st, ast.If):
         c = ex.tr(st.test)
-        b, bt = skel(st.body, ex)
-        o, ot = skel(st.orelse, ex)
-        r, rt = skel(rest, ex)
+        b, bt = skel(st.body, ex, loop)
+        o, ot = skel(st.orelse, ex, loop)
+        r, rt = skel(rest, ex, loop)
         then_t = b if bt else (r if b == "[]" else f"({b} ++ {r})")
         else_t = o if ot else (r if o == "[]" else f"({o} ++ {r})")
         return f"(if {c} then {then_t} else {else_t})", (bt or rt) and (ot or rt)
@@ -352,7 +355,7 @@ def gen_skeletons(sd):
     if g != "[]" or not gt:
         raise Abort("sd_message_received: the guard must only log and return")
     out.append(f"Definition gen_sd_accept (unicast : bool) : bool :=\n  negb {ex.tr(b[0].test)}.\n")
-    d, _ = skel(b[1].body, ex)
+    d, _ = skel(b[1].body, ex, loop=True)
     out.append(f"Definition gen_dispatch_entry (e : sdentry) (mc : bool) : list gact :=\n  {d}.\n")
     # ServiceDiscover.handle_offer
     f = fn_ast(sd.ServiceDiscover.handle_offer)
